@@ -72,7 +72,14 @@ def oracle(ctx, case, impl):
     content = {i: list(ch) for i, ch in enumerate(case['chunks'])}
     scale = scale_of(case)
     pos = 0
+    for x in impl:
+        if isinstance(x, str) and x.startswith('!push:'):
+            ctx.fail('push-raises:%s:%s' % (kind, x), '%s raised %s while accumulating a valid observation' % (acclib.KINDS[kind], x), case)
+            return
     for (i, j) in case['order']:
+        if len(impl) < pos + 5:
+            ctx.fail('merge-history-incomplete:' + kind, 'the history stopped early: %s' % (impl[pos:],), case)
+            return
         ri0, rj0, mres, ri1, rj1 = impl[pos:pos + 5]
         pos += 5
         empties = (len(content[i]) == 0, len(content[j]) == 0)
@@ -241,7 +248,8 @@ def check(ctx):
                              iv if isinstance(iv, str) else {k: iv.get(k) for k in bad},
                              mv if isinstance(mv, str) else {k: str(mv.get(k)) for k in bad}, 'at output %d keys %s' % (i, bad))
                 break
-        oracle(ctx, c, impl)
+        with ctx.guard(c):
+            oracle(ctx, c, impl)
     refusal_cases(ctx)
 
 
